@@ -1,5 +1,6 @@
 import NucsProofs.Engine.C08Local
 import NucsProofs.Engine.Sched
+import NucsProofs.Engine.Greatest
 /-!
   C08 — propagation stops only at a common fixpoint and only ever shrinks domains.
 
@@ -16,8 +17,8 @@ import NucsProofs.Engine.Sched
    (d) `TrigOk a` for each algorithm: the declared wake-up events are sufficient
        (`C08_trig_*`, generated in NucsProofs/Engine/C08Local.lean).
 
-  Part (c) — the result is the greatest common fixpoint when all constraints are exact — is
-  stated as `C08_greatest_full`; its proof is in NucsProofs/Engine/Greatest.lean when present.
+   (c) when all constraints are exact (`Exact`), the result is the greatest common fixpoint below
+       the input (`C08_greatest`), whatever the scheduler.
 -/
 namespace Nucs
 
@@ -56,6 +57,10 @@ def C08_greatest_full : Prop :=
         (∀ q, q < P.props.length → getB s.top.ne q = true →
           ∃ st', runAlg (P.prop q).alg (P.prop q).params (views E (P.prop q).vars) = .ok (st', views E (P.prop q).vars) ∧ st' ≠ .inc) →
         st ≠ .inconsistent ∧ Box.le E s'.top.doms
+
+/-- (c) the result of a pass is the GREATEST common fixpoint below the input when every posted
+    constraint is exact — for every scheduler, hence for every posting and wake-up order -/
+theorem C08_greatest : C08_greatest_full := bcLoopG_greatest
 
 /-- non-vacuity: a two-constraint problem within contract, with all algorithms proved -/
 def exampleProblem : Problem :=
